@@ -444,6 +444,67 @@ def operand_purity(ctx, facts):
     ctx.floor('C12.i', 'value-returning operations analysed', n, 15)
 
 
+def float_ranges(ctx, facts):
+    """C12.j: interval analysis (hv/fprange.py) of the functions that rebuild a Python float from IEEE-754 fields: over every partition of the
+    field domain (sign; exponent field zero / non-zero below the reserved maximum; fraction zero / non-zero) no floating-point intermediate
+    may leave the range of a double while the exact result is representable (overflow to inf / OverflowError, or a non-zero value flushed to 0)."""
+    from ..fprange import RangeInterp, Iv, NotEvaluable, DBL_MAX
+    fh = facts.cls('FloatingPointHelper', HELPER, required=False)
+    if fh is None:
+        ctx.error('C12.j', 'anchor FloatingPointHelper not found')
+        return
+
+    def resolve(call):
+        f = call.func
+        if isinstance(f, ast.Attribute) and isinstance(f.value, ast.Name) and f.value.id in ('FloatingPointHelper', 'self', 'cls'):
+            return fh.methods.get(f.attr)
+        return None
+    n = 0
+    for fmt, mname in (('sp', 'ieee754_parts_to_sp'), ('dp', 'ieee754_parts_to_dp')):
+        fn = fh.methods.get(mname)
+        if fn is None:
+            ctx.error('C12.j', 'anchor FloatingPointHelper.%s not found' % mname)
+            continue
+        E, M = FMT[fmt]
+        params = [a.arg for a in fn.args.args]
+        if len(params) != 3:
+            ctx.error('C12.j', '%s does not take (sign, exponent, fraction)' % mname)
+            continue
+        bad = None
+        npart = 0
+        try:
+            for s in (0, 1):
+                for e in ((0, 0), (1, (1 << E) - 2)):
+                    for m in ((0, 0), (1, (1 << M) - 1)):
+                        ri = RangeInterp(resolve)
+                        rets = ri.function(fn, dict(zip(params, (Iv(s), Iv(*e), Iv(*m)))))
+                        npart += 1
+                        if not rets:
+                            raise NotEvaluable('no return value')
+                        final_ok = all(r.absmax() <= DBL_MAX for r in rets)
+                        if ri.findings and final_ok:
+                            k, txt, iv = ri.findings[0]
+                            bad = dict(partition=dict(sign=s, exponent_field='%d..%d' % e, fraction_field='%d..%d' % m), intermediate=txt, range_of_intermediate=iv, kind=k,
+                                       range_of_exact_result=repr(rets[0]))
+                            break
+                    if bad:
+                        break
+                if bad:
+                    break
+        except NotEvaluable as ex:
+            ctx.ok('C12.j', mname, 'outside the expression language of the interval analysis (%s): not decided' % str(ex)[:60], grade='refused')
+            continue
+        n += 1
+        where = '%s:FloatingPointHelper.%s' % (HELPER, mname)
+        if bad:
+            ctx.violation('C12.j', mname, '%s: a floating-point intermediate can %s although the exact result is a representable double: `%s` ranges over %s' %
+                          (mname, 'exceed the largest double (inf / OverflowError)' if bad['kind'] == 'overflow' else 'fall below the smallest subnormal (flushed to 0)',
+                           bad['intermediate'], bad['range_of_intermediate']), where, witness=bad)
+        else:
+            ctx.ok('C12.j', mname, '%d partitions of (sign, exponent, fraction): every floating-point intermediate stays within [2^-1074, DBL_MAX]' % npart)
+    ctx.floor('C12.j', 'decoders analysed', n, 0)
+
+
 def float_paths(ctx, facts):
     """C12.h: shape conditions of the float conversions that the exactness clauses of the statement need:
     - FPNum.to_float keeps the sign of zero: the sign field is applied in a numeric type that has a signed zero (Decimal / float /
@@ -495,6 +556,8 @@ def run(ctx, sm, facts):
     from .c14 import helper_clause
     ctx.rule('C12.g', 'FixedPoint.add / sub / mult: extracted encoding function == exact arithmetic over a grid of formats and all operand pairs (shared with C14.d)')
     helper_clause(ctx, facts, 'C12.g')
+    ctx.rule('C12.j', 'interval analysis of the field-to-float decoders: no float intermediate leaves the double range while the result is representable')
+    float_ranges(ctx, facts)
     ctx.rule('C12.i', 'operand purity: value-returning operations of FPNum / FixedPoint never mutate self, a parameter or an alias of them')
     operand_purity(ctx, facts)
     ctx.rule('C12.h', 'float conversion shape: signed zero preserved by to_float; exponents never from a floating logarithm')
